@@ -325,7 +325,7 @@ def run(rep, tier, seed, tr_errors):
     tmp = tempfile.mkdtemp(prefix="verif_C06_")
     bad, nfiles, layouts = [], 0, {}
     try:
-        for name, text, enc, exp, desc in file_cases(rng, 250 if tier == "quick" else 6000, tier):
+        for name, text, enc, exp, desc in file_cases(rng, 600 if tier == "quick" else 6000, tier):
             p = os.path.join(tmp, name)
             with open(p, "w", encoding=enc) as fp:
                 fp.write(text)
